@@ -15,15 +15,15 @@ Definition xa : node := mkNode (Explicit 0) 0.
 Definition xe1 : edge := mkEdge (Explicit 1) xX [xa].
 Definition xe2 : edge := mkEdge (Explicit 2) xX [xa].
 Definition xe3 : edge := mkEdge (Explicit 3) xt1 [xa].
-Definition xrS : rule := mkRule xS (mkGraph [xa] [xe1; xe2; xe3] [] [xX; xt1]).
+Definition xrS : rule := mkRule xS (mkGraph [xa] [xe1; xe2; xe3] [] [xX; xt1] [0]).
 
 Definition xu : node := mkNode (Explicit 0) 0.
 Definition xv : node := mkNode (Fresh 7) 0.
-Definition xrX : rule := mkRule xX (mkGraph [xu; xv] [mkEdge (Explicit 1) xt2 [xu; xv]] [xu] [xt2]).
+Definition xrX : rule := mkRule xX (mkGraph [xu; xv] [mkEdge (Explicit 1) xt2 [xu; xv]] [xu] [xt2] [0]).
 
 Definition xchild : dtree := DT xrX [(xu, 1); (xv, 0)] [].
 Definition xrX' : rule :=
-  mkRule xX (mkGraph [xu] [mkEdge (Explicit 5) xt1 [xu]; mkEdge (Explicit 6) xX [xu]] [xu] [xt1; xX]).
+  mkRule xX (mkGraph [xu] [mkEdge (Explicit 5) xt1 [xu]; mkEdge (Explicit 6) xX [xu]] [xu] [xt1; xX] [0]).
 Definition xchild' : dtree := DT xrX' [(xu, 1)] [(mkEdge (Explicit 6) xX [xu], xchild)].
 Definition xtree : dtree := DT xrS [(xa, 1)] [(xe2, xchild); (xe1, xchild')].
 
